@@ -246,11 +246,13 @@ def rule_template(ctx):
                         pieces = interp.decode_template(a["bytes"], ["{}"] * 8)
                         strs.append("".join(p if isinstance(p, str) else "{}" for p in pieces))
     conv = None
+    conv_extra = []
     proto_ty = None
     for s in strs:
-        m = re.search(r"(?:^|[,(\s])([A-Za-z_][A-Za-z0-9_]*)\(argv\[\{\}\]\)", s)
+        m = re.search(r"(?:^|[,(\s])([A-Za-z_][A-Za-z0-9_]*)\(argv\[\{\}\]((?:\s*,[^(){}]*)?)\)", s)
         if m:
             conv = m.group(1)
+            conv_extra = [x.strip() for x in m.group(2).split(",")[1:]] if m.group(2).strip() else []
         m = re.search(r"(?:^|[,(]\s*)([A-Za-z_][A-Za-z0-9_ ]*?)\s+input\{\}", s)
         if m:
             proto_ty = m.group(1).strip()
@@ -271,6 +273,23 @@ def rule_template(ctx):
         res.inst(ikey, fn.file, fn.line, "violation")
         res.violate(ikey, "command-line arguments are converted with %s, which returns `%s`: values outside that range do not reach main unchanged "
                     "(parameters are declared %s)" % (conv, rty, proto_ty), fn.file, fn.line)
+    if conv.startswith("strto"):
+        # strtoll(s, end, base): only base 10 reads every decimal argument as the number it spells (base 0 reads a leading 0 as octal)
+        ikey3 = "argument-conversion:base"
+        base = conv_extra[-1] if len(conv_extra) == 2 else None
+        if base is None:
+            raise AnalysisError("R-TEMPLATE: %s is called with the arguments %s; the base could not be read off" % (conv, conv_extra))
+        if re.fullmatch(r"10[uUlL]*|0[xX][aA]|012", base):
+            res.inst(ikey3, fn.file, fn.line, "ok", "%s with base 10" % conv)
+        elif re.fullmatch(r"[0-9]+[uUlL]*|0[xX][0-9a-fA-F]+", base):
+            res.inst(ikey3, fn.file, fn.line, "violation")
+            res.violate(ikey3, "command-line arguments are converted with %s(argv[i], %s, %s): with base %s a decimal argument is not read as the number it "
+                        "spells (with base 0 a leading zero makes it octal, `010` reaches main as 8; another base reads the digits in that base)" %
+                        (conv, conv_extra[0], base, base), fn.file, fn.line)
+        else:
+            raise AnalysisError("R-TEMPLATE: the base `%s` of %s is not a literal" % (base, conv))
+    elif conv_extra and not (decl is not None and any(c.get("kind") == "CompoundStmt" for c in decl.get("inner", []))):
+        raise AnalysisError("R-TEMPLATE: the conversion %s takes further arguments %s whose meaning is not modelled" % (conv, conv_extra))
     if decl is not None and any(c.get("kind") == "CompoundStmt" for c in decl.get("inner", [])):
         # the conversion is a helper defined in the template itself: on every path it returns the unchanged result of one call of a
         # standard conversion to a 64-bit integer, and it never ends the program (every int64 value has to reach main)
